@@ -60,6 +60,21 @@ def run(ctx: Ctx) -> RuleResult:
     if not ok:
         bad(enclosing_stmt(search), 'search_start is not called with the scanned window and the running position', 'search-args')
         return res
+    # the candidate start is the search result for the whole round, and the loop ends only when the search finds nothing
+    other_ms = [a for a in _assigns(f, ms_var) if a is not enclosing_stmt(search)]
+    ok = not other_ms
+    res.ob(site, 'the candidate start `%s` is assigned only by the search' % ms_var, ok)
+    if not ok:
+        bad(other_ms[0], 'the candidate start `%s` is changed after the search (%s): the next search no longer resumes one character after the failed start, and '
+            'matches in between are skipped' % (ms_var, norm(other_ms[0])[:80]), 'match-start-reassigned')
+    from ..exprs import path_conditions as _pcs2
+    exits_ = [x for x in ast.walk(loop) if isinstance(x, (ast.Return, ast.Break))]
+    bad_exits = [x for x in exits_ if not any(norm(t) == '%s is None' % ms_var and pol for t, pol in _pcs2(x))]
+    ok = not bad_exits
+    res.ob(site, 'the search loop ends only when search_start finds no further candidate', ok)
+    if not ok:
+        bad(bad_exits[0], 'the scan loop can end although a later candidate start may exist (exit under %s): matches after a failed candidate are not reported'
+            % [('' if p_ else 'not ') + norm(t) for t, p_ in _pcs2(bad_exits[0])][-2:], 'loop-exit')
     # initial position = window start
     init = [a for a in _assigns(f, pos_var) if parent(a) is f.node]
     ok = len(init) == 1 and norm(init[0].value) == '%s.start' % text_param
@@ -276,6 +291,14 @@ def run(ctx: Ctx) -> RuleResult:
         res.finding(ss, ss.node, 'the start search is not restricted to non-ignored terminals: a match hidden inside ignored text is '
                                  'skipped, or ignored text starts a match', construct='search-scanner')
     st = repo.func('lark.lexer:Scanner.search')
+    sloops = [l for l in st.node.body if isinstance(l, ast.For)]
+    if sloops:
+        early = [r for r in ast.walk(st.node) if isinstance(r, ast.Return) and r.lineno < sloops[0].lineno] + [x for x in ast.walk(sloops[0]) if isinstance(x, (ast.Return, ast.Break))]
+        oks = not early
+        res.ob('%s %s' % (st.loc(), st.qual), 'Scanner.search answers only after every compiled alternation was searched', oks)
+        if not oks:
+            res.finding(st, early[0], 'Scanner.search can answer before all alternations were searched (%s): a match at the end of the text / in a later chunk of '
+                        'terminals is missed' % norm(early[0])[:60], construct='search-early-answer')
     from ..exprs import as_less
     okm = any(as_less(n) is not None and as_less(n)[1] == '<' and norm(as_less(n)[0]).endswith('.start()') and norm(as_less(n)[2]).endswith('.start()')
               for n in st.body_nodes() if isinstance(n, ast.Compare))
